@@ -342,9 +342,9 @@ type obligation struct {
 var c11Table = []obligation{
 	{"curves.FunctionSpeedCurve).Evaluate", "index", "[0]", "function.curves", "lenpos:Curves(field:Function", "delta indexes values[0]; len(values) == len(function.curves)"},
 	{"curves.FunctionSpeedCurve).Evaluate", "div", "builtin:len(", "function.curves", "lenpos:Curves(field:Function", "average divides by len(curves)"},
-	{"curves.FunctionSpeedCurve).Evaluate", "getter-deref", "curves.GetSpeedCurve", "function.curves[*]", "exists:curveIdExists:Curves", "members are looked up by id and evaluated without an ok test"},
-	{"curves.LinearSpeedCurve).Evaluate", "getter-deref", "sensors.GetSensor", "linear.sensor", "exists:sensorIdExists:Linear", "the sensor is looked up by id and used without an ok test"},
-	{"curves.PidSpeedCurve).Evaluate", "getter-deref", "sensors.GetSensor", "pid.sensor", "exists:sensorIdExists:PID", "the sensor is looked up by id and used without an ok test"},
+	{"curves.FunctionSpeedCurve).Evaluate", "getter-deref", "curves.GetSpeedCurve", "function.curves[*]", "exists:*:Curves", "members are looked up by id and evaluated without an ok test"},
+	{"curves.LinearSpeedCurve).Evaluate", "getter-deref", "sensors.GetSensor", "linear.sensor", "exists:*:Linear", "the sensor is looked up by id and used without an ok test"},
+	{"curves.PidSpeedCurve).Evaluate", "getter-deref", "sensors.GetSensor", "pid.sensor", "exists:*:PID", "the sensor is looked up by id and used without an ok test"},
 	{"util.CalculateInterpolatedCurveValue", "index", "bin:-(builtin:len(", "linear.steps", "lenpos:Steps(field:Linear", "the last step is indexed: a non-nil empty steps map must be rejected"},
 	{"util.FindClosest", "index", "[0]", "fan.pwmMap", "lenpos:PwmMap(", "the key list derived from an empty pwmMap override is empty"},
 	{"util.FindClosest", "index", "[bin:-(builtin:len(", "fan.pwmMap", "lenpos:PwmMap(", "the key list derived from an empty pwmMap override is empty"},
@@ -395,7 +395,10 @@ func (c *Ctx) c11Decide(sites []partialSite, tb *ir.TB) {
 					case "exists":
 						hit = ir.HasBool(fs, false, func(v ssa.Value) bool {
 							call, ok := v.(*ssa.Call)
-							if !ok || ir.Callee(call).Static == nil || ir.Callee(call).Static.Name() != parts[1] {
+							if !ok || ir.Callee(call).Static == nil || !c.P.IsRepoFunc(ir.Callee(call).Static) || len(call.Call.Args) == 0 {
+								return false
+							}
+							if parts[1] != "*" && ir.Callee(call).Static.Name() != parts[1] {
 								return false
 							}
 							if why := c.idExistsHelper(ir.Callee(call).Static, tb); why != "" {
@@ -586,15 +589,15 @@ func (c *Ctx) idExistsHelper(fn *ssa.Function, tb *ir.TB) string {
 }
 
 func (c *Ctx) ruleDispatch(tb *ir.TB) {
-	type pair struct{ factory, pkg, validator string }
-	for _, p := range []pair{{"NewFan", PkgFans, "validateFans"}, {"NewSensor", PkgSensors, "validateSensors"}, {"NewSpeedCurve", PkgCurves, "validateCurves"}} {
+	type pair struct{ factory, pkg string }
+	validate := c.Func(PkgConf, "Validate")
+	var vfuncs []*ssa.Function
+	if validate != nil {
+		vfuncs = c.SortedFuncs(c.Closure([]*ssa.Function{validate}, false, func(f *ssa.Function) bool { return load_FuncPkgPath(f) != PkgConf }))
+	}
+	for _, p := range []pair{{"NewFan", PkgFans}, {"NewSensor", PkgSensors}, {"NewSpeedCurve", PkgCurves}} {
 		fac := c.Func(p.pkg, p.factory)
-		val := c.FuncOpt(PkgConf, p.validator)
 		if fac == nil {
-			continue
-		}
-		if val == nil {
-			c.R.Undecided("R-dispatch", p.factory, p.factory, "-", "validator function "+p.validator+" not found (anchor unresolved)")
 			continue
 		}
 		fields := func(fn *ssa.Function, needCount bool) map[string]bool {
@@ -629,7 +632,32 @@ func (c *Ctx) ruleDispatch(tb *ir.TB) {
 			}
 			return out
 		}
-		ff, vf := fields(fac, false), fields(val, true)
+		ff := fields(fac, false)
+		// the validator function for this kind: the one in Validate's call tree that counts
+		// non-nil backend blocks of elements whose field set overlaps the factory's
+		var val *ssa.Function
+		best := -1
+		for _, cand := range vfuncs {
+			cf := fields(cand, true)
+			if len(cf) == 0 {
+				continue
+			}
+			common := 0
+			for k := range cf {
+				if ff[k] {
+					common++
+				}
+			}
+			// disambiguate fans and sensors (both have HwMon/File/Cmd) by the element type ranged over
+			if common > 0 && c.rangesOverKind(cand, p.factory) && common > best {
+				best, val = common, cand
+			}
+		}
+		if val == nil {
+			c.R.Bad("R-dispatch", p.factory, c.FK(fac), c.P.Pos(fac.Pos()), "no function in configuration.Validate's call tree counts the backend blocks that "+p.factory+" dispatches on")
+			continue
+		}
+		vf := fields(val, true)
 		var fl, vl []string
 		for k := range ff {
 			fl = append(fl, k)
@@ -639,7 +667,7 @@ func (c *Ctx) ruleDispatch(tb *ir.TB) {
 		}
 		sort.Strings(fl)
 		sort.Strings(vl)
-		key := p.factory + "~" + p.validator
+		key := p.factory + "~validator"
 		if strings.Join(fl, ",") == strings.Join(vl, ",") && len(fl) > 0 {
 			c.R.Ok("R-dispatch", key, c.FK(fac), c.P.Pos(fac.Pos()), "factory and validator agree on the backends {"+strings.Join(fl, ",")+"}")
 		} else {
@@ -897,4 +925,20 @@ func (c *Ctx) inAnchorTree(fn *ssa.Function, suffix string) bool {
 		c.anchorTrees[suffix] = tree
 	}
 	return tree[fn]
+}
+
+// rangesOverKind: does the validator function examine the configuration list that the factory instantiates
+// (Fans for NewFan, Sensors for NewSensor, Curves for NewSpeedCurve)?
+func (c *Ctx) rangesOverKind(fn *ssa.Function, factory string) bool {
+	want := map[string]string{"NewFan": "FanConfig", "NewSensor": "SensorConfig", "NewSpeedCurve": "CurveConfig"}[factory]
+	found := false
+	Instrs(fn, func(ins ssa.Instruction) {
+		if fa, ok := ins.(*ssa.FieldAddr); ok {
+			if o, _, ok := ir.FieldName(fa); ok && o != nil && o.Obj().Name() == want {
+				// one of the backend pointer fields of that element type is inspected
+				found = true
+			}
+		}
+	})
+	return found
 }
